@@ -1,5 +1,5 @@
 """C03 — fd events fire only when enabled and ready; mutation in callbacks is safe (epoll + select engines)."""
-import hashlib, re
+import hashlib, os, re
 import vlib
 ID = 'C03'
 LEAN_MODULES = ['TboxModel.C03.Props']
@@ -14,7 +14,17 @@ THEOREMS = ['Tbox.C03.C03_only_enabled_ready', 'Tbox.C03.C03_same_open_file_part
             'Tbox.C03.C03_select_at_counterexample', 'Tbox.C03.C03_epoll_stale_record_counterexample',
             'Tbox.C03.C03_epoll_reused_block_counterexample', 'Tbox.C03.C03_disabled_sibling_counterexample',
             'Tbox.C03.C03_destroyed_sibling_counterexample', 'Tbox.C03.C03_fd_reuse_counterexample',
-            'Tbox.C03.C03_badf_partial_disable_counterexample', 'Tbox.C03.C03_except_backends_counterexample']
+            'Tbox.C03.C03_badf_partial_disable_counterexample', 'Tbox.C03.C03_except_backends_counterexample',
+            # round 3: whole turns of runLoop() (wait -> due timers -> dispatch -> deferred batch), FD_SETSIZE
+            'Tbox.C03.C03_loop_pass_is_pass', 'Tbox.C03.C03_scripts_make_no_callback', 'Tbox.C03.C03_backends_agree_loop',
+            'Tbox.C03.loopPass_order_indep', 'Tbox.C03.C03_late_snapshot_counterexample',
+            'Tbox.C03.C03_select_sets_in_bounds', 'Tbox.C03.C03_select_rejects_high_fd',
+            'Tbox.C03.C03_select_high_fd_asfound_counterexample', 'Tbox.C03.exec_evLim',
+            'Tbox.C03.C03_failed_wait_is_a_turn', 'Tbox.C03.C03_select_errno_counterexample',
+            # event-mask plumbing, over tables regenerated from the source (GenMask.lean)
+            'Tbox.C03.C03_mask_tables', 'Tbox.C03.C03_epoll_report_table', 'Tbox.C03.C03_epoll_report_within_interest',
+            'Tbox.C03.C03_epoll_request_roundtrip', 'Tbox.C03.C03_select_report_exact', 'Tbox.C03.C03_ready_within_interest',
+            'Tbox.C03.C03_sibling_bits_counterexample', 'Tbox.C03.C03_mask_high_bits_inert']
 SOURCES = vlib.EVENT_SOURCES + vlib.BASE_SOURCES
 FLAVOUR = 'asan'
 LIBS = ['-ldl']
@@ -27,22 +37,104 @@ TRUSTED = ['model lean/TboxModel/C03/Model.lean hand-written from engines/{epoll
            'with that ready order every callback, script result and isEnabled() vector of the real loop must equal the model\'s',
            'Linux epoll/select semantics for socket pairs (level-triggered, interest ∩ readiness), ASan + pool poisoning hook H3 for raw memory safety',
            'libc interposition of epoll_ctl/epoll_wait/select and a virtual clock in the harness (props/C03/harness.cpp, harness/vtime.h)',
-           'the harness is compiled with -DDEFAULT_MAX_LOOP_ENTRIES=4 (default 256) so that the growth of the epoll_wait array is reached with 6 descriptors']
+           'the harness is compiled with -DDEFAULT_MAX_LOOP_ENTRIES=4 (default 256) so that the growth of the epoll_wait array is reached with 6 descriptors',
+           'timer heap and deferred queue are not in the model state: which timers are due / which tasks are in the batch is an oracle input of Step.loop (theorems hold for '
+           'every such input); the trace acceptor keeps both queues (1 ms one-shot timers on the virtual clock, run_next queue in posting order with the harness driver task in it) '
+           'and accepts any firing order among equal deadlines',
+           'event-mask tables (GenMask.lean) are regenerated on every run from the if-chains of reloadEpoll / OnEventCallback / fillFdSets by regular expressions in pre_lean; '
+           'numeric values of the EPOLL* constants are those of <sys/epoll.h> (Linux ABI), FD_SETSIZE = 1024 (glibc)']
 ASSUMPTIONS = ['an event object is not deleted from inside its own callback (the code asserts cb_level_ == 0)',
                'the theorem that a callback is on the same open file the kernel reported on assumes the close contract (no descriptor closed while an event object refers to it); everything else holds without it',
-               'no EINTR/other error from the wait call (EBADF is covered); the loop is not re-entered from a callback',
+               'wait errors: EINTR (both engines, injected by the interposer) and EBADF (select, real) are covered; any other error makes the select loop terminate by design and is not injected; '
+               'the loop is not re-entered from a callback',
+               'epoll_ctl failures are those the kernel itself produces here (ADD on a closed number: EBADF, MOD/DEL after the kernel dropped a closed file: ENOENT); ENOMEM/ENOSPC/EPERM '
+               'on ADD are not injected (enable() ignores the result of epoll_ctl: the model records this as kernel interest 0 with the event enabled, C03_counts_match second disjunct)',
                'except condition = out-of-band data on an AF_UNIX socket pair as this kernel reports it (POLLPRI; a drain discards it); EPOLLERR/EPOLLHUP '
                'conditions (peer closed, socket error) are not produced']
 RULE = ('cases = events (scripts of enable/disable/destroy/initialize/close/readiness actions run inside their callbacks) on 1-6 socket pairs, '
         'API ops and loop passes on the real epoll or select loop; non-trivial = some pass served a shared descriptor or >= 2 ready descriptors '
         'while a callback destroyed/disabled/re-initialised events or reused a descriptor number (driver tags shared-fd, multi-ready, skip-*, '
-        'loop-break, cb-destroy, cb-init, cb-fd-reuse); distinct = distinct op text')
+        'loop-break, cb-destroy, cb-init, cb-fd-reuse), or a timer callback that ran between the wait and the dispatch of a ready descriptor destroyed events / reused a '
+        'descriptor number / created a record (timer+ready with T-destroy, T-fd-reuse, T-new-record); distinct = distinct op text')
+
+
+# values of <sys/epoll.h> (Linux ABI) and of the anonymous enum in modules/event/fd_event.h (read from the header below)
+EPOLL_BITS = {'EPOLLIN': 0x1, 'EPOLLPRI': 0x2, 'EPOLLOUT': 0x4, 'EPOLLERR': 0x8, 'EPOLLHUP': 0x10, 'EPOLLRDHUP': 0x2000,
+              'EPOLLRDNORM': 0x40, 'EPOLLRDBAND': 0x80, 'EPOLLWRNORM': 0x100, 'EPOLLWRBAND': 0x200, 'EPOLLMSG': 0x400}
+
+
+def pre_lean(repo, lean):
+    """regenerate GenMask.lean: the event-mask plumbing of both engines, transcribed from their if-chains
+    (EpollFdEvent::reloadEpoll, EpollFdEvent::OnEventCallback, SelectLoop::fillFdSets, SelectFdEvent::OnEventCallback, ::onEvent)"""
+    rd = lambda f: open(os.path.join(repo, f), encoding='utf-8').read()
+    hdr, ep, sl, sf = rd('modules/event/fd_event.h'), rd('modules/event/engines/epoll/fd_event.cpp'), rd('modules/event/engines/select/loop.cpp'), rd('modules/event/engines/select/fd_event.cpp')
+    tb = {n: int(v, 16) for n, v in re.findall(r'(k\w+Event)\s*=\s*(0x[0-9a-fA-F]+)', hdr)}
+    if sorted(tb) != ['kExceptEvent', 'kReadEvent', 'kWriteEvent']: raise RuntimeError('fd_event.h: event enum not understood: %r' % tb)
+
+    def body(src, sig):
+        i = src.find(sig)
+        if i < 0: raise RuntimeError('function %s not found' % sig)
+        j = src.find('\n}\n', i)
+        return src[i:j]
+    def ebits(expr):
+        v = 0
+        for n in re.findall(r'EPOLL\w+', expr):
+            if n not in EPOLL_BITS: raise RuntimeError('unknown epoll constant ' + n)
+            v |= EPOLL_BITS[n]
+        return v
+    # what the counters ask the kernel for
+    ask = [(tb['k%sEvent' % c.capitalize()], ebits(e)) for c, e in
+           re.findall(r'if \(d_->(\w+)_event_num > 0\)\s*new_events \|= \(?([A-Z_| ]+)\)?;', body(ep, 'void EpollFdEvent::reloadEpoll()'))]
+    # how reported kernel bits become tbox bits (every block must also clear the bit it handles)
+    cb = body(ep, 'void EpollFdEvent::OnEventCallback(')
+    rep = []
+    for m in re.finditer(r'if \(events & (EPOLL\w+)\) \{(.*?)\n    \}', cb, re.S):
+        blk = m.group(2)
+        if ('events &= ~%s;' % m.group(1)) not in blk: raise RuntimeError('OnEventCallback: %s is not cleared' % m.group(1))
+        t = re.findall(r'tbox_events \|= (k\w+Event);', blk)
+        if len(t) != 1: raise RuntimeError('OnEventCallback: block of %s not understood' % m.group(1))
+        rep.append((EPOLL_BITS[m.group(1)], tb[t[0]]))
+    sel_ask = [(tb['k%sEvent' % c.capitalize()], {'read': 1, 'write': 2, 'except': 4}[st]) for c, st in
+               re.findall(r'if \(data->(\w+)_event_num > 0\) \{\s*FD_SET\(fd, &(\w+)_set\);', body(sl, 'int SelectLoop::fillFdSets('))]
+    sel_rep = [({'readable': 1, 'writable': 2, 'except': 4}[c], tb[t]) for c, t in
+               re.findall(r'if \(is_(\w+)\)\s*tbox_events \|= (k\w+Event);', body(sf, 'void SelectFdEvent::OnEventCallback('))]
+    guards = [bool(re.search(r'onEvent\(short events\)\s*\{\s*if \(events_ & events\) \{', x)) for x in (ep, sf)]
+    if not (len(ask) == 3 and len(rep) >= 3 and len(sel_ask) == 3 and len(sel_rep) == 3): raise RuntimeError('mask chains not understood')
+    fmt = lambda l: '[' + ', '.join('(%d, %d)' % x for x in l) + ']'
+    text = ('/- GENERATED by props/C03/plugin.py pre_lean from modules/event/fd_event.h, engines/epoll/fd_event.cpp,\n'
+            '   engines/select/{loop,fd_event}.cpp — do not edit.  Event-mask plumbing of both engines as (from, to) pairs in source\n'
+            '   order; epoll bits are the <sys/epoll.h> values (IN 1, PRI 2, OUT 4, ERR 8, HUP 16), select sets are 1 read, 2 write,\n'
+            '   4 except; tbox bits are the values of kReadEvent/kWriteEvent/kExceptEvent read from fd_event.h. -/\n'
+            'namespace Tbox.C03.Gen\n\n'
+            '/-- `reloadEpoll`: (tbox bit whose counter is positive, epoll bits requested for it) -/\n'
+            'def epollAsk : List (Nat × Nat) := %s\n\n'
+            '/-- `EpollFdEvent::OnEventCallback`: (epoll bit reported and cleared, tbox bit set) -/\n'
+            'def epollReport : List (Nat × Nat) := %s\n\n'
+            '/-- `fillFdSets`: (tbox bit whose counter is positive, fd_set the descriptor is put into) -/\n'
+            'def selectAsk : List (Nat × Nat) := %s\n\n'
+            '/-- `SelectFdEvent::OnEventCallback`: (fd_set the descriptor was found in, tbox bit set) -/\n'
+            'def selectReport : List (Nat × Nat) := %s\n\n'
+            '/-- `onEvent` of both engines calls the user only under `if (events_ & events)` -/\n'
+            'def onEventGuarded : Bool := %s\n\n'
+            'def tboxBits : List Nat := %s\n\n'
+            'end Tbox.C03.Gen\n' % (fmt(ask), fmt(rep), fmt(sel_ask), fmt(sel_rep), 'true' if all(guards) else 'false',
+                                       '[%d, %d, %d]' % (tb['kReadEvent'], tb['kWriteEvent'], tb['kExceptEvent'])))
+    path = os.path.join(lean, 'TboxModel/C03/GenMask.lean')
+    old = open(path, encoding='utf-8').read() if os.path.exists(path) else None
+    if old != text:
+        with open(path, 'w', encoding='utf-8') as fh:
+            fh.write(text)
+
+
+NFN = [0]      # number of callables of the case being generated (script items t<k> / n<k> refer to them)
 
 
 def _act(rng, nev, nfd, self_id, spare):
     """one script action"""
     k = rng.randrange(nev + (1 if rng.random() < 0.05 else 0))
     f = rng.randrange(nfd)
+    if NFN[0] and rng.random() < 0.12:
+        return rng.choice('tn') + str(rng.randrange(NFN[0] + (1 if rng.random() < 0.1 else 0)))
     r = rng.random()
     if r < 0.22: return 'd%d' % k
     if r < 0.36: return 'e%d' % k
@@ -65,12 +157,24 @@ def gen_case(rng, nops):
     plan = []                                    # (fd, mask, mode) per initialised event
     for f in range(nfd):
         for _ in range(rng.choice([1, 1, 2, 2, 3, 4])):
-            plan.append((f, rng.choice([1, 1, 1, 1, 2, 3, 3, 5]), rng.choice('pppo')))
+            # `short events` is stored in a uint32_t: bits above the three conditions (also the sign bit: 0x8000.. = negative short) are inert
+            hi = rng.choice([0, 0, 0, 0, 0, 0, 8, 0x7ff8, 0x8000, 0xfff8])
+            plan.append((f, hi + rng.choice([1, 1, 1, 1, 2, 3, 3, 5] + ([0] if hi else [])), rng.choice('pppo')))
     rng.shuffle(plan)
     nspare = rng.choice([0, 1, 2, 3])
     nev = len(plan) + nspare
     spare = list(range(len(plan), nev))
     ops = ['be ' + be] + (['tm'] if rng.random() < 0.3 else [])
+    NFN[0] = rng.choice([0, 0, 1, 2, 3])
+    for j in range(NFN[0]):              # callables: scripts run by one-shot timers (t<k>) and deferred tasks (n<k>)
+        sc = []
+        for _ in range(rng.choice([0, 1, 2, 3, 4])):
+            a = _act(rng, nev, nfd, -1, spare)
+            # at most one post per callable: two would double the deferred queue in every turn (2^turns tasks)
+            if a[0] == 'n' and any(x[0] == 'n' for x in sc): a = 't' + a[1:]
+            sc.append(a)
+            if a[0] == 'i' and rng.random() < 0.8: sc.append('e' + a[1:].split(':')[0])
+        ops.append('fn ' + (','.join(sc) or '-'))
     for j in range(nev):
         n = rng.choice([0, 0, 1, 1, 2, 3, 4])
         sc = []
@@ -86,12 +190,76 @@ def gen_case(rng, nops):
         if rng.random() < 0.5: ops.append('do b%d' % f)       # otherwise every write subscriber fires in every pass
         if rng.random() < 0.75: ops.append('do r%d' % f)
     ops.append('pass')
+    for k in range(NFN[0]):
+        if rng.random() < 0.6: ops.append('do %s%d' % (rng.choice('ttn'), k))
     for _ in range(nops):
         r = rng.random()
-        if r < 0.45: ops.append('pass')
+        if r < 0.45: ops += (['eintr'] if rng.random() < 0.04 else []) + ['pass']
+        elif NFN[0] and r < 0.52: ops.append('do %s%d' % (rng.choice('ttn'), rng.randrange(NFN[0])))
         elif r < 0.62: ops.append('do ' + rng.choice('rururuwbock') + str(rng.randrange(nfd)))
         else: ops.append('do ' + _act(rng, nev, nfd, -1, spare))
     if ops[-1] != 'pass': ops.append('pass')
+    NFN[0] = 0
+    return ops
+
+
+def gen_turn(rng):
+    """directed: a timer is due in the same turn as one or more ready descriptors (handleExpiredTimers runs between the wait and
+    the dispatch); its script destroys the events of a ready descriptor, closes the descriptor, reopens the number and enables a
+    fresh event on it - or a milder variant (no close: the same open file gets a new record; only disable; re-home).  The same
+    scripts also run as deferred tasks (after the dispatch) and descriptor callbacks arm / post them for the next turn."""
+    be = rng.choice(['epoll', 'select'])
+    nfd = rng.choice([1, 1, 2, 2, 3])
+    per = [rng.choice([1, 1, 2]) for _ in range(nfd)]
+    ids, k = [], 0
+    for f in range(nfd):
+        ids.append(list(range(k, k + per[f]))); k += per[f]
+    spare = [k, k + 1]
+    nev = k + 2
+
+    def reuse(g, sp):
+        how = rng.random()
+        vict = ids[g]
+        m = rng.choice([1, 1, 1, 3, 2])
+        if how < 0.45:   return ['x%d' % v for v in vict] + ['c%d' % g, 'i%d:%d:%d:%s' % (sp, g, m, rng.choice('ppo')), 'e%d' % sp]
+        if how < 0.60:   return ['x%d' % v for v in vict] + ['i%d:%d:%d:p' % (sp, g, m), 'e%d' % sp]               # same open file, new record
+        if how < 0.70:   return ['d%d' % v for v in vict] + ['c%d' % g] + ['e%d' % v for v in vict]                  # close while referenced (disabled)
+        if how < 0.80:   return ['d%d' % v for v in vict] + ['i%d:%d:1:p' % (v, rng.randrange(nfd)) for v in vict] + ['e%d' % v for v in vict]
+        if how < 0.90:   return ['x%d' % v for v in vict] + ['k%d' % g, 'c%d' % g, 'i%d:%d:%d:p' % (sp, g, m), 'e%d' % sp, 'r%d' % g]
+        return ['d%d' % v for v in vict[:1]] + ['u%d' % g]
+    g0 = rng.randrange(nfd)
+    fn = [reuse(g0, spare[0]), reuse(rng.randrange(nfd), spare[1]), [rng.choice(['t0', 'n0', 'n1', 't1'])] + (['e%d' % spare[0]] if rng.random() < 0.5 else [])]
+    if rng.random() < 0.3: fn[0] += [rng.choice(['n1', 't1', 'n2', 't0'])]
+    ops = ['be ' + be] + ['fn ' + ','.join(x) for x in fn]
+    for j in range(nev):
+        r = rng.random()
+        ops.append('new ' + ('-' if r < 0.5 else rng.choice(['t0', 'n0', 'n1', 't1', 'n2', 'u%d' % rng.randrange(nfd), 't0,n1'])))
+    for f in range(nfd):
+        for j in ids[f]:
+            ops += ['do i%d:%d:%d:%s' % (j, f, rng.choice([1, 1, 3, 5]), rng.choice('pppo')), 'do e%d' % j]
+        if rng.random() < 0.7: ops.append('do b%d' % f)
+    order = list(range(nfd)); rng.shuffle(order)
+    ops += ['do r%d' % f for f in order if rng.random() < 0.9]
+    ops += ['do ' + rng.choice(['t0', 't0', 't0', 'n0', 't1', 't0', 't2'])]
+    if rng.random() < 0.3: ops += ['do ' + rng.choice(['t1', 'n1', 'n0'])]
+    ops += ['pass', 'pass']
+    for _ in range(rng.choice([0, 1, 2, 3])):
+        ops += rng.choice([['do r%d' % rng.randrange(nfd)], ['do t%d' % rng.randrange(3)], ['do n%d' % rng.randrange(3)], ['eintr'], []]) + ['pass']
+    return ops
+
+
+def gen_high(rng):
+    """directed: descriptors 1023 and 1024 (FD_SETSIZE - 1 and FD_SETSIZE): epoll serves both, select must refuse 1024 in
+    initialize() and never put it into its fd_sets; an event refused there stays what it was"""
+    be = rng.choice(['select', 'select', 'epoll'])
+    hi = rng.choice([1024, 1024, 1023])
+    ops = ['be ' + be, 'fn i2:%d:1:p,e2' % hi, 'new ' + rng.choice(['-', 'u%d' % hi, 'i2:%d:1:p,e2' % hi, 'd1,i1:%d:3:p,e1' % hi]), 'new -', 'new -']
+    ops += ['do i0:%d:%d:%s' % (rng.choice([hi, hi, 0, 1023]), rng.choice([1, 3, 5]), rng.choice('ppo')), 'do e0']
+    ops += ['do i1:%d:1:p' % rng.choice([0, 1023, 1]), 'do e1']
+    if rng.random() < 0.5: ops += ['do d1', 'do i1:%d:3:p' % hi, 'do e1']
+    ops += ['do b%d' % hi] if rng.random() < 0.6 else []
+    ops += ['do r%d' % hi, 'do r1023', 'do r0', 'do ' + rng.choice(['t0', 'n0', 'r1'])]
+    ops += ['pass', 'pass', 'do x0', 'do c%d' % hi, 'do i2:%d:1:p' % hi, 'do e2', 'do r%d' % hi, 'pass']
     return ops
 
 
@@ -226,6 +394,12 @@ def gen_badf(rng):
     for j in range(n1): ops += ['do i%d:1:1:p' % (n0 + j), 'do e%d' % (n0 + j)]
     ops += ['do b0', 'do b1', 'do r0', 'do r1']
     if not incb: ops += ['do ' + a for a in how.split(',')]
+    if rng.random() < 0.3: ops += ['do k1']                   # several invalid descriptors in one EBADF turn
+    # a timer due in the EBADF turn runs BEFORE removeInvalidFds looks at the descriptors: it may reopen the number (then the
+    # events stay enabled), close another one, or make failing system calls (errno must have been saved)
+    if rng.random() < 0.5:
+        ops.insert(1, 'fn ' + rng.choice(['c0', 'c0,u0', 'k1', 'u1,b1', 'c0,d0,e0', 'x0', 'k0']))
+        ops += ['do t0']
     ops += ['pass', 'pass', 'pass']
     ops += rng.choice([['do c0'], ['do c0', 'do e0'], ['do d0', 'do c0', 'do e0'], []]) + ['do r0', 'pass']
     ops += ['do d%d' % j for j in range(n0) if rng.random() < 0.5] + ['do e%d' % j for j in range(n0) if rng.random() < 0.7] + ['do r0', 'pass', 'pass']
@@ -268,7 +442,8 @@ DIRECTED = [
 def gen(rng, tier):
     n = 500 if tier == 'quick' else 25000
     # malformed stream: both sides must answer bad-op
-    yield ['be poll', 'new x0', 'new e1,', 'do i0:9:1:p', 'do i0:0:8:p', 'do i0:0:1:q', 'do q1', 'frob', 'do', 'pass 1', 'new -', 'do e', 'do i0:0:1', 'do c6', 'do k6', 'do o', 'cmp 1', 'cmp', 'tm', 'tm', 'bulk 0', 'bulk 201', 'bulk x', 'bulk 2', 'pass']
+    yield ['be poll', 'new x0', 'new e1,', 'do i0:9:1:p', 'do i0:0:65536:p', 'do i0:0:1:q', 'do q1', 'frob', 'do', 'pass 1', 'new -', 'do e', 'do i0:0:1', 'do c6', 'do k6', 'do c1025', 'do r1022', 'do o', 'cmp 1', 'cmp', 'tm', 'tm', 'bulk 0', 'bulk 201', 'bulk x', 'bulk 2',
+           'fn', 'fn x0,', 'fn t16', 'fn t0,n3,x0', 'fn -', 'do t0', 'do t5', 'do n1', 'do n9', 'do t', 'eintr', 'eintr', 'eintr 1', 'pass', 'pass', 'pass']
     for d in DIRECTED:
         yield list(d)
     for _ in range(n):
@@ -283,6 +458,10 @@ def gen(rng, tier):
         yield gen_agree(rng)
     for _ in range(n // 10):
         yield gen_wide(rng)
+    for _ in range(n):
+        yield gen_turn(rng)
+    for _ in range(n // 10):
+        yield gen_high(rng)
     if tier == 'thorough':
         for k in (64, 65, 70, 130, 200):     # more shared records alive at once than the pool keeps parked (64)
             yield ['be ' + rng.choice(['epoll', 'select']), 'new -', 'do i0:0:1:p', 'do e0', 'bulk %d' % k, 'do r0', 'pass', 'bulk 3', 'new -',
@@ -292,7 +471,9 @@ def gen(rng, tier):
 def nontrivial(ops, model_lines):
     tags = ' '.join(l for l in model_lines if l.startswith('B '))
     hard = any(t in tags for t in ('skip-', 'loop-break', 'cb-destroy', 'cb-init', 'cb-fd-reuse'))
-    return 1 if hard and ('shared-fd' in tags or 'multi-ready' in tags) else None
+    if hard and ('shared-fd' in tags or 'multi-ready' in tags): return 1
+    # a timer callback ran between the wait and the dispatch of a ready descriptor and destroyed events / reused a number
+    return 1 if 'timer+ready' in tags and ('T-destroy' in tags or 'T-fd-reuse' in tags or 'T-new-record' in tags) else None
 
 
 def fingerprint(ops, d):
@@ -300,13 +481,16 @@ def fingerprint(ops, d):
     m = re.search(r'CRASH ([\w:.-]+)', msg)
     if m: return 'crash-' + re.sub(r'[^A-Za-z0-9_-]+', '_', m.group(1))[:48]
     for key, fp in (('DESTROYED', 'cb-on-destroyed'), ('DISABLED', 'cb-on-disabled'), ('not due here', 'cb-stale-readiness'),
+                    ('expected a K line', 'loop-exited'), ('timer phase', 'timer-phase'), ('interrupted wait', 'eintr-mismatch'),
                     ('after EBADF pass', 'ebadf-partial-disable'), ('select EBADF', 'ebadf-mismatch'), ('kernel interest', 'kernel-interest'), ('ready list', 'ready-list'), ('missing from the kernel', 'ready-missing')):
         if key in msg: return fp
     return 'div-' + hashlib.sha1(re.sub(r'\d+', 'N', msg).encode()).hexdigest()[:10]
 
 
 LEVEL_TEXT = ('Lean 4 theorems over a model of the descriptor-event layer of both back-ends (shared per-descriptor records with reference '
-              'and per-condition counters, pool blocks, kernel interest, dispatch with snapshot copy, callbacks as scripts): an inductive invariant '
+              'and per-condition counters, pool blocks, kernel interest, dispatch with snapshot copy, callbacks as scripts; a loop pass is the whole turn of '
+              'runLoop(): wait, callbacks of the due timers, dispatch, batch of deferred tasks, EBADF/EINTR turns; FD_SETSIZE guard of select; event-mask '
+              'tables regenerated from the source): an inductive invariant '
               'over every execution yields callbacks only on alive, enabled events whose descriptor (the same open file) was reported ready with a '
               'subscribed condition, one-shot disabled inside its callback, no stale access/exception, counters and kernel interest exact, back-end '
               'agreement for order-independent passes; counterexamples proved on the model of the code as found; tied to the real epoll and select '
